@@ -52,6 +52,14 @@ func VerifyFunc(p *Prog, fi *FuncInfo, modeOverride string) *VC {
 		st.vars[pv] = v
 	}
 	bindP(sig.Recv())
+	if r := sig.Recv(); r != nil {
+		if _, isPtr := r.Type().Underlying().(*types.Pointer); isPtr {
+			if rv, ok := st.vars[r].(Term); ok {
+				// implicit precondition: methods are verified for non-nil receivers (checked at contract call sites)
+				vc.assumeGlobal(Not(Eq(rv, IntLit(0))))
+			}
+		}
+	}
 	for i := 0; i < sig.Params().Len(); i++ {
 		bindP(sig.Params().At(i))
 	}
@@ -189,6 +197,20 @@ func splitConj(t Term) []Term {
 					out = append(out, Term{"(forall " + parts[0] + " " + c.S + ")", SBool})
 				}
 				return out
+			}
+		}
+		if len(parts) == 2 && strings.HasPrefix(parts[1], "(! ") {
+			inner := splitTop(parts[1][3 : len(parts[1])-1])
+			if len(inner) >= 1 {
+				sub := splitConj(Term{inner[0], SBool})
+				if len(sub) > 1 {
+					var out []Term
+					for _, c := range sub {
+						// goals do not need patterns
+						out = append(out, Term{"(forall " + parts[0] + " " + c.S + ")", SBool})
+					}
+					return out
+				}
 			}
 		}
 	}
